@@ -82,7 +82,7 @@ theorem dhas_dset_mono {α} (d : Dict α) (k j : Text) (v : α) (h : dhas d j = 
 
 theorem addBlankCells_spec : ∀ (l : List Text) (cells cells' : Dict Cell), addBlankCells l cells = .val cells' →
     (∀ a ∈ l, dhas cells' a = true) ∧ (∀ k, dhas cells k = true → dget cells' k = dget cells k) ∧
-    (∀ k, dhas cells k = false → dhas cells' k = true → dget cells' k = some ⟨.text [], none⟩)
+    (∀ k, dhas cells k = false → dhas cells' k = true → dget cells' k = some ⟨.blank, none⟩)
   | [], cells, cells', h => by
     simp only [addBlankCells] at h
     injection h with h; subst h
@@ -102,8 +102,8 @@ theorem addBlankCells_spec : ∀ (l : List Text) (cells cells' : Dict Cell), add
       cases hx : xlCellCheck a with
       | val u =>
         simp only [hx] at h
-        obtain ⟨h1, h2, h3⟩ := addBlankCells_spec rest (dset cells a ⟨.text [], none⟩) cells' h
-        have hnew : dget cells' a = some ⟨.text [], none⟩ := by
+        obtain ⟨h1, h2, h3⟩ := addBlankCells_spec rest (dset cells a ⟨.blank, none⟩) cells' h
+        have hnew : dget cells' a = some ⟨.blank, none⟩ := by
           rw [h2 a (dhas_dset_same _ _ _), dget_dset_same]
         refine ⟨?_, ?_, ?_⟩
         · intro b hb
@@ -116,7 +116,7 @@ theorem addBlankCells_spec : ∀ (l : List Text) (cells cells' : Dict Cell), add
         · intro k hk1 hk2
           by_cases hka : k = a
           · subst hka; exact hnew
-          · have : dhas (dset cells a ⟨.text [], none⟩) k = false := by
+          · have : dhas (dset cells a ⟨.blank, none⟩) k = false := by
               unfold dhas at *; rw [dget_dset_other _ _ _ _ hka]; exact hk1
             exact h3 k this hk2
       | crash k => simp only [hx] at h; cases h
@@ -126,13 +126,13 @@ theorem addBlankCells_spec : ∀ (l : List Text) (cells cells' : Dict Cell), add
       | diverge => simp only [hx] at h; cases h
 
 /-- one term of `build_ranges`: a range term is registered under its own text with the matrix of
-    `resolve_ranges`, and afterwards every member has a cell; existing cells are untouched, new ones hold
-    the empty text. -/
+    `resolve_ranges`, and afterwards every member has a cell; existing cells are untouched, new ones are
+    blank (`None`). -/
 theorem buildRangesTerm_spec (dflt : Text) (wb wb' : Wb) (term : Text) (hok : RangesOK wb)
     (hb : buildRangesTerm dflt wb term = .val wb') :
     RangesOK wb' ∧ wb'.names = wb.names ∧
     (∀ k, dhas wb.cells k = true → dget wb'.cells k = dget wb.cells k) ∧
-    (∀ k, dhas wb.cells k = false → dhas wb'.cells k = true → dget wb'.cells k = some ⟨.text [], none⟩) ∧
+    (∀ k, dhas wb.cells k = false → dhas wb'.cells k = true → dget wb'.cells k = some ⟨.blank, none⟩) ∧
     (has ':' term = true → has '!' term = true →
       ∃ sh m, resolveRanges term = .val (sh, m) ∧ dget wb'.ranges term = some m ∧
         ∀ a ∈ m.flatten, dhas wb'.cells a = true) := by
